@@ -237,6 +237,11 @@ func (g *SQLGen) Select5(t *model.Table) *proto.NStmt {
 			}
 			if r.Chance(1, 3) || name == "" && r.Chance(1, 2) {
 				it.Alias = fmt.Sprintf("al%d", i)
+				if other := fields[r.Intn(len(fields))].Name; r.Chance(1, 4) && other != name && !used[other] {
+					// an alias that is the name of ANOTHER column of the table:
+					// WHERE sees the table's column, ORDER BY the alias
+					it.Alias = other
+				}
 				name = it.Alias
 			}
 			if name != "" && used[name] {
@@ -483,7 +488,7 @@ func (g *SQLGen) Agg7(table string, join string) *proto.NStmt {
 		n.From[0].Alias = "t"
 		q = "t"
 	}
-	if join != "" {
+	if join != "" && join != "aliastwin" {
 		n.From = append(n.From, proto.NTable{Name: join, Alias: "d", Join: []string{"inner", "left", "right"}[r.Intn(3)],
 			On: &proto.Cond{Op: "=", LHS: &proto.Operand{Qual: q, Col: "gi"}, RHS: &proto.Operand{Qual: "d", Col: "k"}}})
 	}
@@ -491,6 +496,30 @@ func (g *SQLGen) Agg7(table string, join string) *proto.NStmt {
 	// COUNT is asked for (AVG over NULL and comparisons with NULL are outside
 	// the property)
 	padded := len(n.From) > 1 && n.From[1].Join == "right"
+	if join == "aliastwin" {
+		// one grouping column carries, as its alias, the NAME of the other
+		// grouping column; GROUP BY names both with qualifiers. Grouping by the
+		// two columns, or refusing the query as ambiguous, are both fine -
+		// grouping by one of them only is not
+		n.From = n.From[:1]
+		if n.From[0].Alias == "" {
+			n.From[0].Alias = "t"
+			q = "t"
+		}
+		n.Items = []proto.NItem{
+			{Kind: "expr", Expr: valExpr(&proto.Operand{Qual: q, Col: "gj"}), Alias: "gi"},
+			{Kind: "expr", Expr: valExpr(&proto.Operand{Qual: q, Col: "gi"})},
+			{Kind: "count"},
+		}
+		if r.Bool() {
+			n.Items[0], n.Items[1] = n.Items[1], n.Items[0]
+		}
+		n.GroupBy = []proto.Operand{{Qual: q, Col: "gi"}, {Qual: q, Col: "gj"}}
+		if r.Bool() {
+			n.GroupBy[0], n.GroupBy[1] = n.GroupBy[1], n.GroupBy[0]
+		}
+		return n
+	}
 	if join == "both" {
 		// two narrow tables joined to the wide aggregated one, grouping by a
 		// column of each
